@@ -861,6 +861,15 @@ class Evaluator:
         b, i = self.ev(n["base"], env, depth), self.ev(n["idx"], env, depth)
         if isinstance(b, (list, str)) and isinstance(i, int) and 0 <= i < len(b):
             return b[i]
+        if isinstance(b, (list, str)) and isinstance(i, St) and i.ty.startswith("core::ops::range::Range"):
+            lo = i.f.get("start", 0)
+            hi = i.f.get("end", len(b))
+            if isinstance(lo, int) and isinstance(hi, int):
+                if i.ty.endswith("Inclusive"):
+                    hi += 1
+                if 0 <= lo <= hi <= len(b):
+                    return b[lo:hi]
+                raise Panic("slice index out of range")
         return Sym(("index", term(b), term(i)))
 
     def ev_struct(self, n, env, depth):
@@ -1280,6 +1289,24 @@ class Evaluator:
             if name == "find":
                 i = s.find(oc)
                 return V("Some", (i,)) if i >= 0 else V("None")
+        if oc is not None:
+            if name == "rfind":
+                i = s.rfind(oc)
+                return V("Some", (i,)) if i >= 0 else V("None")
+            if name == "split_once":
+                i = s.find(oc)
+                return V("Some", ((s[:i], s[i + len(oc):]),)) if i >= 0 else V("None")
+            if name == "rsplit_once":
+                i = s.rfind(oc)
+                return V("Some", ((s[:i], s[i + len(oc):]),)) if i >= 0 else V("None")
+            if name == "strip_suffix":
+                return V("Some", (s[:len(s) - len(oc)],)) if s.endswith(oc) else V("None")
+            if name == "trim_start_matches":
+                while oc and s.startswith(oc):
+                    s = s[len(oc):]
+                return s
+        if name == "split_at" and isinstance(o, int) and not isinstance(o, bool) and 0 <= o <= len(s):
+            return (s[:o], s[o:])
         if name in ("to_string", "to_owned", "as_str", "into", "as_ref"):
             return s
         if name == "chars":
